@@ -6,6 +6,12 @@ import BM.Gen.SrcPins
 namespace BM.Props
 
 def C08_units : List (String × String) := [
+  ("sanitize.go/func/*Policy.Sanitize", "9ba7d669ac7a66cc"),
+  ("sanitize.go/func/*Policy.SanitizeBytes", "757e2ab378b5f7df"),
+  ("sanitize.go/func/*Policy.SanitizeReader", "08410f91f837f43a"),
+  ("sanitize.go/func/*Policy.SanitizeReaderToWriter", "567a76ba99acc83b"),
+  ("sanitize.go/func/*Policy.sanitizeWithBuff", "a00e1f64f0d0c903"),
+  ("sanitize.go/func/*Policy.sanitize/case:html.CommentToken", "320296cf3dc2a363"),
   ("sanitize.go/func/*Policy.sanitize/case:html.StartTagToken", "06e5b6a502de1bc0"),
   ("sanitize.go/func/*Policy.sanitize/case:html.EndTagToken", "13ba196cca634709"),
   ("sanitize.go/func/*Policy.sanitize/case:html.SelfClosingTagToken", "579a9bca378883dd"),
